@@ -88,7 +88,7 @@ func genTopo(tp *simrt.Tape, o genOpts) *topo {
 		ns := tp.Range(1, o.maxSubs, "n_subs")
 		for si := 0; si < ns; si++ {
 			s := &mSub{Name: fmt.Sprintf("sub%d.%s", si, c.Name), Weight: tp.Range(1, 10, "sub.weight")}
-			if si > 0 && o.zeroWeights && tp.Chance(1, 6, "sub.zero") {
+			if o.zeroWeights && tp.Chance(1, 5, "sub.zero") {
 				s.Weight = tp.Draw(2, "sub.neg") * -1 // 0 or -1
 			}
 			nb := tp.Range(1, o.maxBackends, "n_backends")
@@ -99,6 +99,16 @@ func genTopo(tp *simrt.Tape, o genOpts) *topo {
 				s.Backends[0].Weight = 1 // loader demands one positive weight per sub-cluster
 			}
 			c.Subs = append(c.Subs, s)
+		}
+		// the loader wants a positive total gslb weight per cluster
+		pos := false
+		for _, x := range c.Subs {
+			if x.Weight > 0 {
+				pos = true
+			}
+		}
+		if !pos {
+			c.Subs[tp.Draw(len(c.Subs), "sub.keep_positive")].Weight = tp.Range(1, 10, "sub.weight")
 		}
 		if o.blackhole && tp.Chance(1, 3, "blackhole") {
 			c.Subs = append(c.Subs, &mSub{Name: "GSLB_BLACKHOLE", Weight: tp.Draw(4, "bh.weight")})
